@@ -429,3 +429,45 @@ func Harness_C11_dropRecreate() {
 	verifAssert(verifAnd(err == nil, string(v) == "default"), "the other collection is still intact")
 	verifReach("done")
 }
+
+// C20: a view update (foreground, or the background one of stale=updateAfter) races the
+// shutdown: the query returns rows or an error, its goroutines end, nothing stays locked.
+func raceShutdownVsView(del bool, background bool) {
+	le := lifeBegin(true)
+	ctx := context.Background()
+	verifMapSource(verifMapA)
+	verifAssert(le.c2.PutDDoc(ctx, "dd", &sgbucket.DesignDoc{Views: sgbucket.ViewMap{"v": sgbucket.ViewDef{Map: verifMapA}}}) == nil, "PutDDoc succeeds")
+	verifAssert(le.c1.SetRaw("k", 0, nil, []byte(`{"a":1}`)) == nil, "write succeeds")
+	var params map[string]any
+	if background {
+		params = map[string]any{"stale": "updateAfter"}
+	}
+	var verr error
+	// the query itself runs three internal goroutines (reader, mapper, closer): one preemption
+	// (two in the thorough tier) on top of the free choices at every blocking point
+	verifExplore(verifPreemptions() - 1)
+	go func() { _, verr = le.c2.View(ctx, "dd", "v", params) }()
+	go func() {
+		if del {
+			_ = le.h1.CloseAndDelete(ctx)
+		} else {
+			le.h2.Close(ctx) // the handle the query runs on
+		}
+	}()
+	verifJoin()
+	if verr == nil {
+		verifReach("query-won")
+	} else {
+		verifReach("query-lost")
+	}
+	if del {
+		le.afterShutdown("shutdown vs view update")
+	} else {
+		verifAssert(verifLiveThreads() == 0, "close vs view update: every goroutine of the query has ended")
+		verifAssert(verifProbe(le.h1, "x") == nil, "close vs view update: the other handle keeps working (no lock left held)")
+	}
+}
+
+func Harness_C20_deleteVsViewUpdate()           { raceShutdownVsView(true, false) }
+func Harness_C20_deleteVsBackgroundViewUpdate() { raceShutdownVsView(true, true) }
+func Harness_C20_closeVsViewUpdate()            { raceShutdownVsView(false, false) }
